@@ -1,6 +1,106 @@
-From Verif Require Import Lib.Base Txpool.Model Txpool.Proofs Gen.TxpoolConsts.
+(* C20 — Runtime transaction pool respects sender order, priority and capacity.
+   Only statements; proofs are in Txpool/*.v. *)
+From Verif Require Import Lib.Base Txpool.Model Txpool.Inv Txpool.Refine Txpool.RefProps Txpool.Proofs Gen.TxpoolConsts.
 
+(* G: the guards read from the source are the ones the model assumes *)
 Theorem gen_consts_expected :
-  other_guards = [U64MAX; U64MAX; U64MAX; U64MAX] /\ max_batch_size = MAXBATCH.
-Proof. exact gen_other_guards_expected. Qed.
+  other_guards = [U64MAX; U64MAX; U64MAX; U64MAX] /\ max_batch_size = MAXBATCH /\ next_sched_stop = U64MAX.
+Proof. exact (conj (proj1 gen_other_guards_expected) (conj (proj2 gen_other_guards_expected) gen_stop_is_maxuint64)). Qed.
 Print Assumptions gen_consts_expected.
+
+(* "After any sequence of add, schedule, reset, transaction-used and sender-forward
+   operations its contents and schedules equal those of a straightforward reference
+   model": every observation (result class, contents, validity of each scheduled
+   pick and of each eviction) of the ported bookkeeping equals the reference's, for
+   all operation sequences with uint64 sequence numbers. *)
+Theorem book_refines_ref : forall c ops,
+  Forall op_ok ops ->
+  run_obs (b_step next_sched_stop) (init c) ops = run_obs r_step (init c) ops.
+Proof. exact book_refines_ref_l. Qed.
+Print Assumptions book_refines_ref.
+
+(* the incrementally maintained max heap holds exactly the computed ready set *)
+Theorem maxheap_is_ready_set : forall c ops,
+  Forall op_ok ops ->
+  let s := run (b_step next_sched_stop) (init c) ops in
+  forall j, In j (maxh s) <-> In j (map tid (ready s)).
+Proof. exact maxheap_is_ready_set_l. Qed.
+Print Assumptions maxheap_is_ready_set.
+
+(* with the literal the code had before the repair the refinement is false *)
+Theorem book_refines_ref_refuted_for_maxint64 :
+  exists c ops, Forall op_ok ops /\
+    run_obs (b_step 9223372036854775807) (init c) ops <> run_obs r_step (init c) ops.
+Proof. exact Proofs.book_refines_ref_refuted_for_maxint64. Qed.
+Print Assumptions book_refines_ref_refuted_for_maxint64.
+
+(* what "ready" means: successor of the sender's last emission in this pass
+   (never across the uint64 boundary), else the sender's current sequence *)
+Theorem ready_meaning : forall s t,
+  is_ready s t = true <->
+  match aget (tsender t) (sched s) with
+  | Some last => last <> U64MAX /\ tseq t = last + 1
+  | None => aget (tsender t) (senders s) = Some (tseq t)
+  end.
+Proof. exact RefProps.ready_meaning. Qed.
+Print Assumptions ready_meaning.
+
+(* sender order and no double scheduling, for every run of the reference: per
+   sender the emissions of the current pass start at the sender's current sequence
+   and proceed by +1; no (sender, sequence) slot is emitted twice; the schedule map
+   records each sender's last emission *)
+Theorem pass_sender_order : forall c ops,
+  chain_ok (snd (r_run_log c ops)) /\
+  NoDup (map slot (snd (r_run_log c ops))) /\
+  forall a, aget a (sched (fst (r_run_log c ops))) = last_of a (snd (r_run_log c ops)).
+Proof. exact pass_order_all. Qed.
+Print Assumptions pass_sender_order.
+
+(* the logged run is the plain reference run *)
+Theorem logged_run_is_reference_run : forall ops s log,
+  fst (fold_left r_step_log ops (s, log)) = run r_step s ops.
+Proof. exact r_run_log_state. Qed.
+Print Assumptions logged_run_is_reference_run.
+
+(* every pick is a ready transaction of maximal priority among the ready ones *)
+Theorem pick_is_highest_priority_ready : forall i s s',
+  r_schedule_one i s = Some s' ->
+  exists t, find_id i (ready s) = Some t /\ In t (txs s) /\ tid t = i /\ is_ready s t = true /\
+            (forall u, In u (txs s) -> is_ready s u = true -> tprio u <= tprio t) /\
+            s' = set_sched s (aset (tsender t) (tseq t) (sched s)).
+Proof. exact pick_is_ready_and_max. Qed.
+Print Assumptions pick_is_highest_priority_ready.
+
+(* a schedule call stops only at the limit or when nothing is ready *)
+Theorem schedule_fills_or_exhausts : forall lim picks s s',
+  r_schedule lim picks s = (COk, s') ->
+  N.of_nat (length picks) = N.min lim MAXBATCH \/ ready s' = [].
+Proof. exact schedule_complete. Qed.
+Print Assumptions schedule_fills_or_exhausts.
+
+(* capacity, for every operation sequence (and any stop constant) *)
+Theorem capacity_respected : forall STOP c ops, within_cap (run (b_step STOP) (init c) ops).
+Proof. exact capacity_respected_l. Qed.
+Print Assumptions capacity_respected.
+
+(* a transaction leaves the pool during an add only as the replaced same-slot
+   transaction of strictly lower priority, or as a minimum-priority eviction *)
+Theorem eviction_and_replacement_rule : forall c ops t q e u,
+  Forall op_ok ops ->
+  let s := run (b_step next_sched_stop) (init c) ops in
+  In u (txs s) -> ~ In u (txs (snd (b_add t q e s))) ->
+  (tsender u = tsender t /\ tseq u = tseq t /\ tprio u < tprio t)
+  \/ (tprio u <= tprio t /\ forall w, In w (txs s) -> tprio u <= tprio w).
+Proof. exact leaver_rule_l. Qed.
+Print Assumptions eviction_and_replacement_rule.
+
+Theorem replace_only_by_strictly_higher : forall c ops t q e old,
+  Forall op_ok ops ->
+  let s := run (b_step next_sched_stop) (init c) ops in
+  find_id (tid t) (txs s) = None -> In old (txs s) ->
+  tsender old = tsender t -> tseq old = tseq t ->
+  (tprio t <= tprio old -> b_add t q e s = (CReplUnderpriced, s)) /\
+  (tprio old < tprio t -> fst (b_add t q e s) = COk /\
+       forall u, In u (txs (snd (b_add t q e s))) <-> u = t \/ (In u (txs s) /\ u <> old)).
+Proof. exact replace_only_higher_l. Qed.
+Print Assumptions replace_only_by_strictly_higher.
